@@ -114,17 +114,20 @@ func shapeClass(buf []rune, anchorCol, w int) string {
 		}
 		cols += emu.RuneWidth(r)
 	}
-	if nl {
-		parts = append(parts, "multiline")
-	}
-	if wide {
-		parts = append(parts, "wide")
-	}
-	if comb {
-		parts = append(parts, "combining")
-	}
-	if tab {
+	// One class per frame, by the feature that dominates how the engine lays the buffer out
+	// (the classes name the shapes that known findings are about; listing every combination
+	// of features would never be complete).
+	switch {
+	case tab:
 		parts = append(parts, "tab")
+	case nl:
+		parts = append(parts, "multiline")
+	case comb:
+		parts = append(parts, "combining")
+	case wide:
+		parts = append(parts, "wide")
+	default:
+		parts = append(parts, "ascii")
 	}
 	if !nl && !tab {
 		switch {
@@ -135,6 +138,9 @@ func shapeClass(buf []rune, anchorCol, w int) string {
 		default:
 			parts = append(parts, "1row")
 		}
+	}
+	if anchorCol == 0 {
+		parts = append(parts, "no-prompt")
 	}
 	return strings.Join(parts, "+")
 }
